@@ -221,6 +221,25 @@ func runC06(c *Ctx) {
 					}
 					if call, isC := other.(*ssa.Call); isC && call.Call.StaticCallee() == a.Connect && (bo.Op == token.EQL) == cd.True {
 						ok, why = true, "dominated by err == nil of "+c.FuncKey(a.Connect)
+						// ... and once the connect routine has succeeded nothing can skip it: on the CFG without the
+						// "error is not nil" edges every path from the call to a return passes the dispatch
+						skipErr := func(from, to *ssa.BasicBlock) bool {
+							ec, okE := edgeCond(from, to)
+							if !okE {
+								return false
+							}
+							ec = unwrapNot(ec)
+							b2, isB2 := ec.V.(*ssa.BinOp)
+							if !isB2 || !((b2.X == ssa.Value(call) && isNilConst(b2.Y)) || (b2.Y == ssa.Value(call) && isNilConst(b2.X))) {
+								return false
+							}
+							return (b2.Op == token.NEQ && ec.True) || (b2.Op == token.EQL && !ec.True)
+						}
+						for x := range ReachFromFiltered(call, false, func(y ssa.Instruction) bool { return y == e.Site }, skipErr) {
+							if _, isR := x.(*ssa.Return); isR {
+								ok, why = false, "after the connect routine succeeded the return at "+c.InstrPos(x)+" is reached without REGISTER: an established connection that never registers"
+							}
+						}
 					}
 				}
 			}
@@ -326,6 +345,38 @@ func runC06(c *Ctx) {
 
 	// ---- R3
 	c.membersCallTeardown("R3")
+	// Connected() is the flag
+	r.Rule("R12", "Connected() agrees with the events because it IS the flag: every return of Connected() returns the connected flag loaded under a blocking acquisition of the connection mutex - no constant answer (a TryLock that gives up says 'false' while REGISTER or CONNECTED handlers run)")
+	if cf := c.Func(c.Client, "(*Conn).Connected"); r.Anchor("R12", "(*Conn).Connected", cf != nil) {
+		nRet := 0
+		funcInstrs(cf, func(in ssa.Instruction) {
+			rt, isR := in.(*ssa.Return)
+			if !isR || len(rt.Results) != 1 {
+				return
+			}
+			nRet++
+			okR, whyR := true, "returns the flag, loaded with the mutex held"
+			for _, o := range c.originsLocal(retVal(rt, 0)) {
+				fv, _ := loadedField(o)
+				if fv != a.Connected {
+					okR, whyR = false, "returns "+o.String()+", not the connected flag"
+				} else if ld, isI := o.(ssa.Instruction); isI && ls.Held(ld, mu) == 0 {
+					okR, whyR = false, "the flag is read without the connection mutex"
+				}
+			}
+			r.Add("R12", fmt.Sprintf("connected-answer#%d", nRet), c.InstrPos(rt), c.FuncKey(cf), "Connected() answers with the flag itself", okR, whyR)
+		})
+		// the acquisition is a blocking one
+		funcInstrs(cf, func(in ssa.Instruction) {
+			if cc := callOf(in); cc != nil {
+				switch calleeName(cc) {
+				case "(*sync.RWMutex).TryRLock", "(*sync.RWMutex).TryLock", "(*sync.Mutex).TryLock":
+					r.Add("R12", "connected-trylock", c.InstrPos(in), c.FuncKey(cf), "Connected() waits for the mutex", false, calleeName(cc)+": the answer depends on who else holds the mutex")
+				}
+			}
+		})
+		r.Floor("R12", "returns of Connected()", nRet, 1)
+	}
 
 	// ---- R5
 	c.connectInertRule("R5")
@@ -1297,6 +1348,7 @@ func runC07(c *Ctx) {
 	r.Rule("R4", "every success path of the connect routine creates fresh inbound and outbound queues and, when tracking, wipes the tracker - after the refusals")
 	r.Rule("R6", "a connection stays up until something ends it: the context its goroutines watch derives from the caller's context by WithCancel only - no WithTimeout / WithDeadline (a dial or handshake time limit, say) lies on its ancestry inside the library")
 	r.Rule("R7", "a handler may reconnect: no lock of the library is held while handlers of any set are dispatched (must-lockset at every dispatch of a handler set is empty), so Connect or Close called from inside a handler cannot meet a lock its own dispatch holds")
+	r.Rule("R9", "the teardown never waits for background handlers: no goroutine counted in the connection WaitGroup runs, or waits for, a dispatch on the background set (user code there may run for as long as it likes, and may itself call Close)")
 	r.Rule("R8", "a connection stays up until something ends it: every deadline set on the socket during set-up (SetDeadline / SetReadDeadline / SetWriteDeadline with a non-zero time) is cleared again in both directions on every path to a successful return")
 	r.Rule("R5", "every go statement in package client is a WaitGroup member (Add constants equal member spawns on every path; each member does exactly one Done per exit), locally joined, the detached background dispatch, or a teardown helper stopped before the teardown returns")
 	funcs, ls, tf := c.releaseCensus("R1")
@@ -1530,6 +1582,7 @@ func runC07(c *Ctx) {
 	c.lifetimeContextRule("R6")
 	c.noLocksAtDispatchRule("R7")
 	c.noArmedDeadlineRule("R8")
+	c.noMemberAwaitsBackground("R9")
 
 	// ---- R5
 	c.goCensus("R5", tf)
@@ -2132,4 +2185,32 @@ func (c *Ctx) noArmedDeadlineRule(rule string) {
 		})
 	}
 	r.Add(rule, "deadlines-examined", "-", "", "socket deadlines armed in package client", true, fmt.Sprintf("%d arming calls", n))
+}
+
+// noMemberAwaitsBackground: C07.R9.
+func (c *Ctx) noMemberAwaitsBackground(rule string) {
+	r, a := c.R, c.A
+	n := 0
+	for _, m := range a.Members {
+		n++
+		reach := c.Closure([]*ssa.Function{m}, func(from *ssa.Function, e Edge) bool { return e.Kind != EdgeGo })
+		bad := ""
+		for _, fn := range reach.Order {
+			if !c.InModuleFn(fn) {
+				continue
+			}
+			for _, cs := range CallSites(fn) {
+				if _, isGo := cs.(*ssa.Go); isGo {
+					continue
+				}
+				for _, e := range c.Callees(cs) {
+					if e.Callee == a.SetDispatch && c.setFieldOf(cs) == a.BG {
+						bad = "awaits the background dispatch at " + c.InstrPos(cs) + " (" + c.ChainString(reach.Funcs[fn]) + ")"
+					}
+				}
+			}
+		}
+		r.Add(rule, "member-no-bg:"+c.FuncKey(m), c.Pos(m.Pos()), c.FuncKey(m), "a goroutine the teardown waits for does not run background handlers", bad == "", bad)
+	}
+	r.Floor(rule, "connection goroutines", n, 3)
 }
